@@ -129,6 +129,7 @@ def _judge_forked(mod, case, timeout):
             try:   # whatever the case writes to the real stdout must not reach the check's own output
                 devnull = os.open(os.devnull, os.O_WRONLY)
                 os.dup2(devnull, 1)
+                os.dup2(os.open(os.devnull, os.O_RDONLY), 0)
             except OSError:
                 pass
             try:
@@ -408,6 +409,7 @@ def main(argv=None):
     if repo not in sys.path:
         sys.path.insert(0, repo)
     known = load_known(pid)
+    os.environ['VERIF_RUN_ID'] = str(os.getpid())
 
     if a.replay:
         return replay(pid, a.replay, known, a.tier)
@@ -440,6 +442,12 @@ def main(argv=None):
                 return 2
     import shutil
     shutil.rmtree(os.path.join(HERE, '.work', 'cov'), ignore_errors=True)
+    import glob
+    for stale in glob.glob(os.path.join(HERE, '.work', '*_%s.json*' % os.environ['VERIF_RUN_ID'])):
+        try:
+            os.remove(stale)
+        except OSError:
+            pass
     errors = [r for r in results if not r.get('ok')]
     if errors:
         for e in errors[:3]:
